@@ -9,7 +9,7 @@ use crate::util::{guard, par_map, Kv};
 
 pub fn meta(_ctx: &Ctx) -> Meta {
     Meta {
-        rule: "6 base networks (dense ranges; shape-preserving conv / deconv ranges; conv(k2,p1)+pool(k2,s1) composite; max-pool as range entry; flat dense output re-read as 1x3x3 at the range entry; range ending in a layer that is flattened for a following dense layer) x EVERY range a <= b whose output shape equals the input shape of a (start / middle / end) x k in 1..3 (4, 5, 6, 9 for two ranges per network) x all 5 accumulations x input skips on/off (with input skips also under a multiplicative / overwrite SKIP-connection accumulation, which must not matter) x 2 exact integer valuations, plus pairs of disjoint ranges. Oracles: reference interpreter y_0=f(x_a), y_t=f(y_{t-1}[+x_a]), out=comb(y_0;y_1..y_k); with overwrite (no input skips) bit-equality with the plain network in which layers a..b are repeated k+1 times with the same weights. Non-trivial = reference output has >= 2 distinct non-zero entries".into(),
+        rule: "6 base networks (dense ranges; shape-preserving conv / deconv ranges; conv(k2,p1)+pool(k2,s1) composite; max-pool as range entry; flat dense output re-read as 1x3x3 at the range entry; range ending in a layer that is flattened for a following dense layer) x EVERY range a <= b whose output shape equals the input shape of a (start / middle / end) x k in 1..3 (4, 5, 6, 9 for two ranges per network) x all 5 accumulations x input skips on/off (with input skips also under a multiplicative / overwrite SKIP-connection accumulation, which must not matter) x 2 exact integer valuations (one of them with inputs scaled by 2^-20), plus pairs of disjoint ranges. Oracles: reference interpreter y_0=f(x_a), y_t=f(y_{t-1}[+x_a]), out=comb(y_0;y_1..y_k); with overwrite (no input skips) bit-equality with the plain network in which layers a..b are repeated k+1 times with the same weights. Non-trivial = reference output has >= 2 distinct non-zero entries".into(),
         bound: "k <= 3, ranges of <= 3 layers, planes 3x3".into(),
         exhaustive: true,
         assumptions: vec!["tolerance 2e-6*max|reference| (mean over 3 operands is not exact); the unrolled-network differential is bit-exact".into()],
@@ -124,7 +124,11 @@ pub fn check(seed: u64, case: &Kv, rep: &mut Report) {
     let shapes = ref_shapes(&net).unwrap();
     let key = format!("{}#{}", net.name(), v);
     let params = structural_params(&net, &shapes, seed, &key);
-    let unit = if net.loopacc == Acc::Mean { 12.0 } else { 1.0 };
+    // valuations 2 and 3 (thorough) and every odd valuation of a linear-only network use tiny inputs (2^-20): a loop
+    // iteration then changes the value by far less than 1e-5 without being a fixed point
+    let linear_only = !net.name().contains("relu");
+    let tiny = v >= 2 || (v == 1 && linear_only);
+    let unit = if net.loopacc == Acc::Mean { 12.0 } else { 1.0 } * if tiny { 9.536_743e-7 } else { 1.0 };
     let x = structural_input(net.input.count(), unit, seed, &key);
     let cls = format!("{} {}", class(&net), net.loopacc.name());
     let lib_out = match predict_vs_ref(&net, &params, &x, 2e-6) {
